@@ -219,10 +219,22 @@ fn refusal_case(cfg: &Config, tmp: &std::path::Path, idx: u64, r: &mut Rng, st: 
             class_name = "non-variable-head-argument";
             let mut a = atom.clone();
             let pos = r.upto(a.terms.len());
-            a.terms[pos] = if r.chance(1, 2) {
-                fol::GeneralTerm::IntegerTerm(fol::IntegerTerm::Numeral(r.range(0, 5) as isize))
-            } else {
-                fol::GeneralTerm::SymbolicTerm(fol::SymbolicTerm::Symbol("a".into()))
+            let mut quantification = quantification;
+            a.terms[pos] = match r.below(4) {
+                0 => fol::GeneralTerm::IntegerTerm(fol::IntegerTerm::Numeral(r.range(0, 5) as isize)),
+                1 => fol::GeneralTerm::SymbolicTerm(fol::SymbolicTerm::Symbol("a".into())),
+                _ => {
+                    // a compound integer term over one (fresh, universally quantified) variable
+                    let n = fol::IntegerTerm::Variable("N9".into());
+                    quantification.variables.push(fol::Variable { name: "N9".into(), sort: fol::Sort::Integer });
+                    let two = fol::IntegerTerm::Numeral(r.range(1, 3) as isize);
+                    fol::GeneralTerm::IntegerTerm(match r.below(4) {
+                        0 => fol::IntegerTerm::BinaryOperation { op: fol::BinaryOperator::Multiply, lhs: Box::new(n), rhs: Box::new(two) },
+                        1 => fol::IntegerTerm::BinaryOperation { op: fol::BinaryOperator::Add, lhs: Box::new(n), rhs: Box::new(two) },
+                        2 => fol::IntegerTerm::UnaryOperation { op: fol::UnaryOperator::Negative, arg: Box::new(n) },
+                        _ => fol::IntegerTerm::BinaryOperation { op: fol::BinaryOperator::Subtract, lhs: Box::new(n.clone()), rhs: Box::new(n) },
+                    })
+                }
             };
             theory.formulas[k] = rebuild(Some(quantification), *lhs, a);
         }
